@@ -50,7 +50,7 @@ ASSUMPTIONS = [
     "the master secret), everything else against the wire transcript",
 ]
 NONTRIVIAL = ["mutcell", "kexcell", "faultsite", "osslcell"]
-DEADLINE = {"quick": 55, "thorough": 900}
+DEADLINE = {"quick": 120, "thorough": 900}
 
 HASHES = R.HASHES
 PSS_HASHES = ["sha1", "sha224", "sha256", "sha384", "sha512"]
